@@ -140,11 +140,9 @@ ArithRes(op, a, b) == CASE op = "add" -> Add(a, b) [] op = "sub" -> Sub(a, b) []
                         [] op = "div" -> DivFloor(a, b) [] op = "mod" -> ModFloor(a, b)
 CmpRes(op, a, b) == CASE op = "eq" -> (a = b) [] op = "ne" -> (a # b) [] op = "lt" -> SLt(a, b)
                       [] op = "gt" -> SLt(b, a) [] op = "le" -> SLe(a, b) [] op = "ge" -> SLe(b, a)
-\* did the mathematical result leave the signed range?  (history only; mul is judged by dividing back)
+\* did the mathematical result leave the signed range?  (history only)
 Wraps(op, a, b) == CASE op = "add" -> AddOverflows(a, b) [] op = "sub" -> SubOverflows(a, b)
-                     [] op = "mul" -> (~IsZero(a) /\ ~IsZero(b) /\
-                                       (\/ (a = Ones /\ b = MinInt) \/ (b = Ones /\ a = MinInt)
-                                        \/ DivFloor(Mul(a, b), a) # b \/ ModFloor(Mul(a, b), a) # Zero))
+                     [] op = "mul" -> MulOverflows(a, b)
                      [] op = "div" -> (a = MinInt /\ b = Ones)
                      [] OTHER -> FALSE
 ElemTrunc(el, w) == IF el = "byte" THEN ByteWord(LowByte(w)) ELSE w
